@@ -42,7 +42,8 @@ pub fn unsupported_%d() {
 }""" % (n, n, n))
         hs.append({"name": "c14::unsupported_%d" % n, "group": "stub", "tier": "quick" if n in (1018, 4095) else "thorough",
                    "bounds": "unsupported number %d through the public path => MsgNotSupported{%d}" % (n, n)})
-    hs.append({"name": "c14::empty", "group": "stub", "tier": "quick", "bounds": "frames with L in {0,1} inside a 12-byte buffer (arbitrary bytes after the frame) => Empty"})
+    for l in (0, 1):
+        hs.append({"name": "c14::empty_%d" % l, "group": "stub", "tier": "quick", "bounds": "frame with L = %d inside a 12-byte buffer (arbitrary payload/bytes after the frame) => Empty" % l})
     gen.write_gen("c14_list.rs", "\n".join(code) + "\n")
     return {
         "harnesses": hs,
